@@ -12,11 +12,10 @@
 (*         refused (each reason belongs to a property, see Trace.tla).     *)
 (* One operator per ExecuteMsg variant (contract.rs `execute`).            *)
 (***************************************************************************)
-EXTENDS Integers, Sequences, FiniteSets, FiniteSetsExt, SequencesExt, Arith
+EXTENDS Integers, Sequences, FiniteSets, FiniteSetsExt, SequencesExt, Arith, Ownership
 
 None == ""        \* absent optional address / string
 NoAmt == -1       \* absent optional amount / time
-OwnershipDelay == 604800          \* 7 days, execute.rs execute_transfer_ownership
 RecoverPageSize == 10             \* execute.rs recover
 IbcTimeoutSecs == 1000            \* contract.rs IBC_TIMEOUT
 HookDenom == "IBCTIA"             \* voucher denom credited by the IBC module
@@ -204,20 +203,19 @@ RemoveValidator(c, call) ==
              \cup R(call.v \notin c.cfg.validators, "not_found")
   IN IF why # {} THEN Err(c, why) ELSE Ok([c EXCEPT !.cfg.validators = @ \ {call.v}], << >>)
 
-\* ownership: execute.rs execute_transfer_ownership / revoke / accept  (Ownership.tla is the
-\* stand-alone machine; this is its embedding into the staking state)
+\* ownership: execute.rs execute_transfer_ownership / revoke / accept - the machine of Ownership.tla
+\* embedded into the staking state
+OwnOf(c) == [admin |-> c.admin, pending |-> c.pending, minTime |-> c.minTime]
+WithOwn(c, o) == [c EXCEPT !.admin = o.admin, !.pending = o.pending, !.minTime = o.minTime]
 TransferOwnership(c, call, now) ==
-  LET why == R(call.s # c.admin, "unauthorized") \cup R(~call.tvalid, "invalid_address")
-  IN IF why # {} THEN Err(c, why)
-     ELSE Ok([c EXCEPT !.pending = call.to, !.minTime = now + OwnershipDelay], << >>)
+  LET why == OwnTransferWhy(OwnOf(c), call.s, call.tvalid)
+  IN IF why # {} THEN Err(c, why) ELSE Ok(WithOwn(c, OwnTransfer(OwnOf(c), call.to, now)), << >>)
 RevokeOwnership(c, call) ==
-  IF call.s # c.admin THEN Err(c, {"unauthorized"})
-  ELSE Ok([c EXCEPT !.pending = None, !.minTime = NoAmt], << >>)
+  LET why == OwnRevokeWhy(OwnOf(c), call.s)
+  IN IF why # {} THEN Err(c, why) ELSE Ok(WithOwn(c, OwnRevoke(OwnOf(c))), << >>)
 AcceptOwnership(c, call, now) ==
-  LET why == R(c.minTime # NoAmt /\ c.minTime > now, "too_early")
-             \cup R(c.pending = None \/ c.pending # call.s, "not_nominee")
-  IN IF why # {} THEN Err(c, why)
-     ELSE Ok([c EXCEPT !.admin = call.s, !.pending = None], << >>)
+  LET why == OwnAcceptWhy(OwnOf(c), call.s, now)
+  IN IF why # {} THEN Err(c, why) ELSE Ok(WithOwn(c, OwnAccept(OwnOf(c), call.s)), << >>)
 
 \* execute.rs update_config: only the supplied sections are replaced. `call.up` is a record whose
 \* domain is the set of supplied sections; each carries the new abstract values and `valid`.
